@@ -31,6 +31,7 @@ type World struct {
 	structDT  map[string]*smt.Sort
 
 	Contracts    map[*ssa.Function]*Contract // by target function
+	ByOrigin     map[*ssa.Function]*ssa.Function // generic origin -> instantiation that has a contract
 	IfaceCons    map[string]*Contract        // by "pkg.Iface.Method"
 	ContractList []*Contract
 	funcsByName  map[string]*ssa.Function
@@ -145,7 +146,7 @@ func Load(dir string, patterns []string, overlay map[string][]byte) (*World, err
 	prog.Build()
 	w := &World{Prog: prog, Pkgs: map[string]*ssa.Package{}, PPkgs: map[string]*packages.Package{},
 		fieldIDs: map[string]int{}, typeIDs: map[string]int{}, structDT: map[string]*smt.Sort{},
-		Contracts: map[*ssa.Function]*Contract{}, IfaceCons: map[string]*Contract{},
+		Contracts: map[*ssa.Function]*Contract{}, ByOrigin: map[*ssa.Function]*ssa.Function{}, IfaceCons: map[string]*Contract{},
 		funcsByName: map[string]*ssa.Function{}, srcCache: map[string][]string{}, Notes: map[string]bool{}}
 	w.fieldInfo = append(w.fieldInfo, fieldInfo{})
 	w.typeByID = append(w.typeByID, nil)
@@ -175,7 +176,17 @@ func (w *World) SortedNotes() []string {
 // ---------------------------------------------------------------------------
 // sorts
 
-func typeName(t types.Type) string { return types.TypeString(t, nil) }
+// keySubst rewrites type names while a contract written for one instantiation of a generic
+// type is applied to another instantiation (pairs of from/to substrings).
+var keySubst [][2]string
+
+func typeName(t types.Type) string {
+	s := types.TypeString(t, nil)
+	for _, p := range keySubst {
+		s = strings.ReplaceAll(s, p[0], p[1])
+	}
+	return s
+}
 
 func (w *World) SortOf(t types.Type) *smt.Sort {
 	switch u := t.Underlying().(type) {
